@@ -237,7 +237,7 @@ def h_rewrite(ctx, kind, tagged, codes, npay=2):
 PORT_BITS = dict(PORT_DOWN=1, NO_STP=2, NO_RECV=4, NO_RECV_STP=8, NO_FLOOD=16, NO_FWD=32, NO_PACKET_IN=64)
 
 
-def h_ports(ctx, outkind):
+def h_ports(ctx, outkind, thorough=False):
   env.get_core()
   of = ctx.pox('pox.openflow.libopenflow_01'); swm = ctx.pox('pox.datapaths.switch'); pkt = ctx.pox('pox.lib.packet')
   sw = swm.SoftwareSwitch(dpid=1, ports=4, max_buffers=0)
@@ -264,16 +264,22 @@ def h_ports(ctx, outkind):
     sw.rx_message(sw._connection, pm2)
     ctx.check('port config applied', (sw.ports[p].config & masks[p]) == c)
     ctx.check('PORT_DOWN implies LINK_DOWN state', ((sw.ports[p].state & 1) != 0) == ((c & 1) != 0))
+  # port 5 is hot-plugged (add_port) with its configuration already in place - administratively down / not forwarding / not flooding before
+  # any port_mod was ever sent for it (its state word says nothing about the link)
+  addrs = ctx.pox('pox.lib.addresses')
+  m5 = PORT_BITS['PORT_DOWN'] | PORT_BITS['NO_FWD'] | (PORT_BITS['NO_FLOOD'] if thorough else 0)
+  cfg[5] = ctx.int('cfg5', 0, 127) & m5
+  sw.add_port(of.ofp_phy_port(port_no=5, hw_addr=addrs.EthAddr(b'\x02\x00\x00\x00\x05\x05'), name='hot5', config=cfg[5], state=0))
   in_port = in_port_c
   stp = ctx.bool('stp')
   dst = [1, 0x80, 0xc2, 0, 0, 0] if stp else [2, 0, 0, 0, 0, 7]
   body = list(ctx.bytes('body', 4))
   raw = env.tobytes(ctx, dst + [2, 0, 0, 0, 0, 8] + [0x08, 0x01] + body)
-  if outkind == 'port': outp = ctx.int('outp', 1, 5)            # 5 does not exist
+  if outkind == 'port': outp = ctx.int('outp', 1, 6)            # 6 does not exist
   else: outp = dict(in_port=0xfff8, flood=0xfffb, all=0xfffc)[outkind]
   fm = of.ofp_flow_mod(command=0, priority=1, actions=[of.ofp_action_output(port=outp)])
   sw.rx_message(sw._connection, of.ofp_flow_mod.unpack_new(fm.pack())[1])
-  before = {p: (sw.port_stats[p].rx_packets, sw.port_stats[p].rx_bytes, sw.port_stats[p].tx_packets, sw.port_stats[p].tx_bytes) for p in (1, 2, 3, 4)}
+  before = {p: (sw.port_stats[p].rx_packets, sw.port_stats[p].rx_bytes, sw.port_stats[p].tx_packets, sw.port_stats[p].tx_bytes) for p in (1, 2, 3, 4, 5)}
   sw.rx_packet(pkt.ethernet(raw), int(in_port))
   ip = int(in_port)
   def bit(p, name): return (cfg[p] & PORT_BITS[name]) != 0
@@ -288,7 +294,7 @@ def h_ports(ctx, outkind):
     elif outkind == 'in_port':
       if bool(can_tx(ip)): exp = [ip]
     else:
-      for p in (1, 2, 3, 4):
+      for p in (1, 2, 3, 4, 5):
         if p == ip: continue
         if outkind == 'flood' and bool(bit(p, 'NO_FLOOD')): continue
         if bool(can_tx(p)): exp.append(p)
@@ -296,7 +302,7 @@ def h_ports(ctx, outkind):
     ctx.witness('refused')
   ctx.check('egress ports', sorted(p for p, _ in outs) == sorted(exp))
   for p, b in outs: ctx.check('frame unchanged', ctx.Eq(b, raw))
-  for p in (1, 2, 3, 4):
+  for p in (1, 2, 3, 4, 5):
     rxp, rxb, txp, txb = before[p]
     st = sw.port_stats[p]
     acc = bool(accepted) and p == ip
@@ -343,6 +349,6 @@ def obligations(tier):
                desc='packet_utils.checksum == RFC 1071 reference (the routine the reference edit uses to recompute checksums)'),
     Obligation('O1_rewrite', h_rewrite, cases, witnesses=('done',), max_decisions=20000,
                desc='emitted bytes == byte-level reference edit for action lists over all 12 action types'),
-    Obligation('O2_ports', h_ports, [dict(outkind=k) for k in ('port', 'in_port', 'flood', 'all')], witnesses=('accepted', 'refused'), max_decisions=20000,
+    Obligation('O2_ports', h_ports, [dict(outkind=k, thorough=thorough) for k in ('port', 'in_port', 'flood', 'all')], witnesses=('accepted', 'refused'), max_decisions=20000,
                desc='port config bits (via port_mod) x output kinds: egress set, receive rules, counters'),
   ]
